@@ -105,3 +105,58 @@ Proof.
   pose proof (write_obs_plain e (wrap16 (s_pc s + off)) (rget (s_regs s) sr) c s P IO eq_refl) as O.
   rewrite E in O. exact O.
 Qed.
+
+(* STR to ordinary memory: as ST, at base + offset *)
+Theorem exec_obs_str e sr br off s s' u :
+  exec e (SSTR sr br off) s = (s', inl u) ->
+  let ea := wrap16 (w_data (rget (s_regs s) br) + off) in
+  (IO_START <=? ea) = false ->
+  s_obs s' = let o := obs_update (s_obs s) ea OBS_WRITTEN in
+             if word_eqb (mget (s_mem s) ea) (rget (s_regs s) sr) then o else obs_update o ea OBS_MODIFIED.
+Proof.
+  unfold exec. rewrite run_bind, run_get. cbv zeta. rewrite run_bind.
+  unfold get_if_init. destruct (negb (strict s) || is_init (rget (s_regs s) br)); cbn [of_opt]; [|discriminate].
+  rewrite run_ret. intros E IO.
+  set (c := mkCtx _ _ _ _) in E.
+  set (ea := wrap16 (w_data (rget (s_regs s) br) + off)) in *.
+  assert (P : negb (c_priv c) && negb (in_user ea) = false).
+  { unfold write_mem in E. destruct (negb (c_priv c) && negb (in_user ea)); [discriminate E|reflexivity]. }
+  pose proof (write_obs_plain e ea (rget (s_regs s) sr) c s P IO eq_refl) as O.
+  rewrite E in O. exact O.
+Qed.
+
+(* LDI: READ at the pointer's address, then READ at the address the pointer word holds
+   (whatever the first read returned: memory or a device) *)
+Theorem exec_obs_ldi e dr off s s' u :
+  exec e (SLDI dr off) s = (s', inl u) ->
+  exists s1 w, read_mem e (wrap16 (s_pc s + off)) (default_ctx s) s = (s1, inl w) /\
+    s_obs s' = obs_update (obs_update (s_obs s) (wrap16 (s_pc s + off)) OBS_READ) (w_data w) OBS_READ.
+Proof.
+  unfold exec. rewrite run_bind, run_get. cbv zeta. rewrite run_bind.
+  destruct (read_mem e (wrap16 (s_pc s + off)) (default_ctx s) s) as [s1 [w|b]] eqn:R1; [|discriminate].
+  rewrite run_bind. unfold get_if_init. destruct (negb (strict s) || is_init w); cbn [of_opt]; [|discriminate].
+  rewrite run_ret, run_bind, run_get. cbv zeta. rewrite run_bind.
+  destruct (read_mem e (w_data w) (default_ctx s1) s1) as [s2 [v|b]] eqn:R2; [|discriminate].
+  intros E. exists s1, w. split; [reflexivity|].
+  rewrite (tail_obs _ _ _ _ _ _ E), (read_ok_obs _ _ _ _ _ _ R2 eq_refl), (read_ok_obs _ _ _ _ _ _ R1 eq_refl). reflexivity.
+Qed.
+
+(* STI: READ at the pointer's address, then the marks of a store at the address the pointer holds *)
+Theorem exec_obs_sti e sr off s s' u :
+  exec e (SSTI sr off) s = (s', inl u) ->
+  exists s1 w, read_mem e (wrap16 (s_pc s + off)) (default_ctx s) s = (s1, inl w) /\
+    ((IO_START <=? w_data w) = false ->
+     s_obs s' = let o := obs_update (obs_update (s_obs s) (wrap16 (s_pc s + off)) OBS_READ) (w_data w) OBS_WRITTEN in
+                if word_eqb (mget (s_mem s1) (w_data w)) (rget (s_regs s1) sr) then o else obs_update o (w_data w) OBS_MODIFIED).
+Proof.
+  unfold exec. rewrite run_bind, run_get. cbv zeta. rewrite run_bind.
+  destruct (read_mem e (wrap16 (s_pc s + off)) (default_ctx s) s) as [s1 [w|b]] eqn:R1; [|discriminate].
+  rewrite run_bind. unfold get_if_init. destruct (negb (strict s) || is_init w); cbn [of_opt]; [|discriminate].
+  rewrite run_ret, run_bind, run_get. cbv zeta.
+  intros E. exists s1, w. split; [reflexivity|]. intros IO.
+  set (c := mkCtx _ _ _ _) in E.
+  assert (P : negb (c_priv c) && negb (in_user (w_data w)) = false).
+  { unfold write_mem in E. destruct (negb (c_priv c) && negb (in_user (w_data w))); [discriminate E|reflexivity]. }
+  pose proof (write_obs_plain e (w_data w) (rget (s_regs s1) sr) c s1 P IO eq_refl) as O.
+  rewrite E in O. cbn [fst] in O. rewrite O, (read_ok_obs _ _ _ _ _ _ R1 eq_refl). reflexivity.
+Qed.
